@@ -1,18 +1,18 @@
 --------------------------- MODULE MC_FetchHosts ---------------------------
 (* Fetch.tla part (b) as a table: one initial state per (host class, URI     *)
-(* kind, allow-dubious-hosts); the invariant is the statement of C31.  The   *)
+(* kind, allow-dubious-hosts, copy of an earlier run in the cache); the invariant is the statement of C31.  The   *)
 (* Gen cfg prints every row with the verdict of the statement (must) and     *)
 (* what the transcribed code does (requests).                                *)
 EXTENDS Fetch, Json
 
-VARIABLES row, kind, allow
-hvars == <<row, kind, allow>>
+VARIABLES row, kind, allow, known
+hvars == <<row, kind, allow, known>>
 
-HInit == Init /\ row \in HostRows /\ kind \in UriKinds /\ allow \in BOOLEAN
+HInit == Init /\ row \in HostRows /\ kind \in UriKinds /\ allow \in BOOLEAN /\ known \in BOOLEAN
 HNext == UNCHANGED <<vars, hvars>>
 HSpec == HInit /\ [][HNext]_<<vars, hvars>>
 
-C31_NoDubiousFetch == C31_Row(row, kind, allow)
+C31_NoDubiousFetch == C31_Row(row, kind, allow, known)
 
 \* sanity of the table itself
 TableOK ==
@@ -21,8 +21,8 @@ TableOK ==
   /\ (row.ipparse => row.ip)
   /\ (~row.stated => ~(row.localhost \/ row.ip \/ row.port))
 
-Line == [class |-> row.class, auth |-> row.auth, kind |-> kind, allow |-> allow,
+Line == [class |-> row.class, auth |-> row.auth, kind |-> kind, allow |-> allow, known |-> known,
          must_not |-> MustNotFetch(row, allow), stated |-> row.stated, parses |-> row.parses,
-         model_requests |-> Requests(row, kind, allow)]
+         model_requests |-> Requests(row, kind, allow, known)]
 Emit == PrintT(<<"REPLAY", ToJson(Line)>>)
 =============================================================================
